@@ -4,6 +4,8 @@
 From Coq Require Import List NArith Bool.
 From Coq Require Import String.
 From Wesh Require Import Model.C09_Seal Proofs.C09_Seal Model.C11_FirstUse Proofs.C11_FirstUse.
+From Wesh Require Model.Store Model.C02_Ratchet Proofs.C02_Ratchet Proofs.C02_Spec.
+From Coq Require Lia ZifyN ZifyNat.
 From Wesh Require Import Gen.Seal GenFacts.SealFacts.
 Import ListNotations.
 Open Scope N_scope.
@@ -63,3 +65,34 @@ Print Assumptions C09_counters_distinct.
 Print Assumptions C09_stored_counter_monotone.
 Print Assumptions C09_first_use_one_chain.
 Print Assumptions C09_announcements_never_overwrite_own_chain.
+
+(* "... and every one of them opens correctly at a receiver": whatever the schedule of the senders, a
+   receiver that registered the device's chain key at c0 (any window W >= 1) and is handed the envelopes
+   produced so far - in ANY order, with any repetitions, mixed with anything else - opens every one of
+   them when it keeps retrying (C02's abstract ratchet, which the datastore-level store model refines):
+   the counters are exactly c0+1 .. c0+n (above), which is what C02_retry_completeness asks for *)
+Theorem C09_all_produced_envelopes_open :
+  forall c0 lefts s, reachable (init c0 lefts) s ->
+  forall W, (1 <= W)%nat ->
+  forall (L : list C02_Ratchet.rop) st d (cidf : N -> N -> N),
+    st d = Some (c0, []) ->
+    (forall k, In k (emitted s) -> In (C02_Ratchet.ROpen d k (cidf d k)) L) ->
+    exists opened,
+      C02_Spec.passes W (List.length (emitted s)) st L d = Some (c0, opened) /\
+      forall k, In k (emitted s) -> In k opened.
+Proof.
+  intros c0 lefts s Hr W HW L st d cidf Hst HL.
+  pose proof (seal_counters_exact c0 lefts s Hr) as E.
+  destruct (C02_Spec.retry_completeness W HW (List.length (emitted s)) L st d c0 [] cidf Hst (NoDup_nil _)
+              (fun k H => match H with end)) as (opened & Hp & Hinc).
+  - intros i Hi. apply HL. rewrite E. replace (c0 + N.of_nat i) with (c0 + 1 + N.of_nat (i - 1)) by Lia.lia.
+    apply seqN_in. Lia.lia.
+  - exists opened. split; [exact Hp|]. intros k Hk. apply Hinc.
+    rewrite E in Hk. clear - Hk. unfold C02_Spec.upto. apply in_map_iff.
+    assert (G : forall n f x, In x (seqN f n) -> exists i, (i < n)%nat /\ x = f + N.of_nat i).
+    { induction n as [|n IH]; intros f x H; [destruct H|]. cbn [seqN] in H. destruct H as [<-|H].
+      - exists 0%nat. split; Lia.lia.
+      - destruct (IH _ _ H) as (i & Hi & ->). exists (S i). split; Lia.lia. }
+    destruct (G _ _ _ Hk) as (i & Hi & ->). exists (S i). split; [Lia.lia|]. apply in_seq. Lia.lia.
+Qed.
+Print Assumptions C09_all_produced_envelopes_open.
